@@ -102,6 +102,12 @@ func ruleFlushLoopComplete(c *Ctx, rule string) {
 								okGuard = true
 							}
 						}
+						// a cache slot that holds no page at all has nothing to write: `if node == nil { continue }`
+						if be, ok := cond.(*ast.BinaryExpr); ok && be.Op == token.EQL && isNilIdent(f, be.Y) {
+							if t := f.TypeOf(be.X); t != nil && namedTypeIs(t, "storage", "btreeNode") {
+								okGuard = true
+							}
+						}
 					}
 					if !okGuard {
 						bad = "a skip that does not depend on the dirty flag (" + c.W.Pos(y.Pos()) + ")"
